@@ -262,6 +262,276 @@ pub fn oracle_steps(msgs: &[StepRef]) -> Result<(), (String, String)> {
     }
 }
 
+/// Residue probes: 1059 messages whose encoding has exactly L payload bytes and a single data bit in the last byte
+/// (7 padding bits), for every L that the layout 67 + 11*sats + 19*biases can reach. Built through the public API.
+fn residue_probes() -> Vec<(usize, Message, Vec<u8>)> {
+    use crate::biasmsg::BiasMsg;
+    use crate::checks::c16::{make_message, Entry};
+    let sigs = BiasMsg::M1059.signals();
+    let mut out = Vec::new();
+    for l in 9..=1023usize {
+        let t = 8 * (l - 1) + 1;
+        if t < 67 + 30 {
+            continue;
+        }
+        let r = t - 67;
+        let mut found = None;
+        for s in 1..=63usize {
+            if r < 11 * s {
+                break;
+            }
+            let rem = r - 11 * s;
+            if rem % 19 == 0 {
+                let b = rem / 19;
+                if b >= s && b <= 31 * s && b <= 390 {
+                    found = Some((s, b));
+                    break;
+                }
+            }
+        }
+        if let Some((s, b)) = found {
+            let mut es = Vec::with_capacity(b);
+            for i in 0..b {
+                let sat = (i % s) as u8;
+                let sg = sigs[(i / s) % sigs.len()];
+                es.push(Entry { sat, band: sg.1, attr: sg.2, bias: 0.0 });
+            }
+            if let Some(m) = make_message(BiasMsg::M1059, &es) {
+                if let Ok(f) = fresh(&m) {
+                    if f.len() == l + 6 {
+                        out.push((l, m, f));
+                    }
+                }
+            }
+        }
+    }
+    out
+}
+
+/// every refused pool message and the longest accepted ones, each followed by every residue probe: whatever a build
+/// leaves behind in any payload byte must not show in the padding of a later frame ending in that byte
+fn residue_histories(ctx: &Ctx) -> (Evidence, Vec<Violation>) {
+    use rayon::prelude::*;
+    let pool = pool(ctx.seed);
+    let probes = residue_probes();
+    let mut firsts: Vec<usize> = (0..pool.len()).filter(|i| pool[*i].fresh_len.is_none()).collect();
+    let mut by_len: Vec<usize> = (0..pool.len()).filter(|i| pool[*i].fresh_len.is_some()).collect();
+    by_len.sort_by_key(|i| std::cmp::Reverse(pool[*i].fresh_len.unwrap_or(0)));
+    firsts.extend(by_len.into_iter().take(40));
+    let stride = if ctx.tier == Tier::Thorough { 1 } else { 1 };
+    let parts: Vec<(Evidence, Vec<Violation>)> = firsts
+        .par_iter()
+        .map(|fi| {
+            let mut ev = Evidence::new();
+            ev.sample_cap = 0;
+            let mut vs: Vec<Violation> = Vec::new();
+            let d = &pool[*fi];
+            for (l, probe, fresh_frame) in probes.iter().step_by(stride) {
+                ev.evaluations += 1;
+                let r = catch(|| {
+                    let mut b = MessageBuilder::new();
+                    let _ = b.build_message(&d.msg).map(|f| f.len());
+                    b.build_message(probe).map(|f| f.to_vec()).map_err(|e| format!("{:?}", e))
+                });
+                match r {
+                    Ok(Ok(f)) if &f == fresh_frame => {
+                        ev.distinct_by_construction += 1;
+                    }
+                    Ok(Ok(f)) => {
+                        if vs.is_empty() {
+                            let pos = f.iter().zip(fresh_frame.iter()).position(|(a, b)| a != b).unwrap_or(0);
+                            vs.push(Violation {
+                                property: "C12".into(),
+                                signature: "c12:frame-depends-on-history".into(),
+                                message: format!("builder used for [{}], then a {}-byte-payload probe message: frame differs from a fresh builder's at byte {}", d.label, l, pos),
+                                case: json!({"kind":"history","labels":[d.label, format!("residue-probe-{}", l)],"history":[d.tree.to_json(), msggen::message_to_value(probe).to_json()]}),
+                            });
+                        }
+                    }
+                    Ok(Err(e)) => {
+                        if vs.is_empty() {
+                            vs.push(Violation {
+                                property: "C12".into(),
+                                signature: "c12:reused-refuses-fresh-accepts".into(),
+                                message: format!("builder used for [{}], then probe {}: refused with {}", d.label, l, e),
+                                case: json!({"kind":"history","labels":[d.label, format!("residue-probe-{}", l)],"history":[d.tree.to_json(), msggen::message_to_value(probe).to_json()]}),
+                            });
+                        }
+                    }
+                    Err(p) => {
+                        if vs.is_empty() {
+                            vs.push(Violation { property: "C12".into(), signature: panic_signature(&p), message: format!("panic: {}", p), case: json!({"kind":"history","labels":[d.label],"history":[d.tree.to_json(), msggen::message_to_value(probe).to_json()]}) });
+                        }
+                    }
+                }
+            }
+            (ev, vs)
+        })
+        .collect();
+    let mut ev = Evidence::new();
+    let mut vs = Vec::new();
+    for (e, v) in parts {
+        ev.merge(e);
+        vs.extend(v);
+    }
+    ev.class_n("residue-probe-histories", ev.evaluations);
+    ev.extra.insert("residue_probe_lengths".into(), json!(probes.len()));
+    ev.extra.insert("residue_probe_first_steps".into(), json!(firsts.len()));
+    (ev, vs)
+}
+
+fn retry_histories(ctx: &Ctx) -> (Evidence, Vec<Violation>) {
+    use rayon::prelude::*;
+    let corp = corpus(ctx.seed);
+    let probes = residue_probes();
+    let parts: Vec<(Evidence, Vec<Violation>)> = corp
+        .types
+        .par_iter()
+        .map(|tc| {
+            let mut ev = Evidence::new();
+            ev.sample_cap = 1;
+            let mut vs: Vec<Violation> = Vec::new();
+            let mut rng = ctx.rng("c12-retry", tc.number as u64);
+            let big = match tc.bases.iter().max_by_key(|b| format!("{:?}", b).len()) {
+                Some(b) => b,
+                None => return (ev, vs),
+            };
+            let mut all = Vec::new();
+            big.walk(&mut Vec::new(), &mut all);
+            let seqs: Vec<_> = all.iter().filter(|(p, n)| matches!(n, Value::Seq(_)) && !p.iter().any(|s| matches!(s, Step::Index(_)))).map(|(p, _)| p.clone()).collect();
+            for path in seqs {
+                let key = schema_key(&path);
+                let (tpl, cap) = match tc.seq_templates.get(&key) {
+                    Some(t) => t.clone(),
+                    None => continue,
+                };
+                // element pool from every base (all-zero, all-one and random vectors)
+                let mut elems: Vec<Value> = Vec::new();
+                for b in &tc.bases {
+                    if let Some(Value::Seq(items)) = b.get(&path) {
+                        for it in items {
+                            if elems.len() < 64 && !elems.contains(it) {
+                                elems.push(it.clone());
+                            }
+                        }
+                    }
+                }
+                if elems.is_empty() {
+                    elems.push(tpl.clone());
+                }
+                // failable leaves: setting them to an extreme makes a one-element message refused
+                let mut leaves = Vec::new();
+                tpl.walk(&mut Vec::new(), &mut leaves);
+                let mut failable: Vec<(Vec<Step>, Value)> = Vec::new();
+                for (lp, node) in leaves.iter().filter(|(_, n)| n.is_leaf_number()) {
+                    let bad = if node.is_float() { Value::F64(-1e30) } else { Value::I64(i64::MIN) };
+                    let mut t = big.clone();
+                    let mut e = elems[0].clone();
+                    if let Some(slot) = e.get_mut(lp) {
+                        *slot = bad.clone();
+                    }
+                    if let Some(Value::Seq(items)) = t.get_mut(&path) {
+                        *items = vec![e];
+                    }
+                    if let Ok(m) = value_to_message(&t) {
+                        if let Ok(Err(_)) = catch(|| fresh(&m)) {
+                            failable.push((lp.clone(), bad));
+                        }
+                    }
+                }
+                for (lp, bad) in failable.iter().take(3) {
+                    for k in 0..cap {
+                        for variant in 0..2u64 {
+                            // k good elements (+ the bad one)
+                            let start = if variant == 0 { 0 } else { rng.below(elems.len() as u64) as usize };
+                            let good: Vec<Value> = (0..k).map(|i| elems[(start + i * (1 + variant as usize)) % elems.len()].clone()).collect();
+                            let mut bad_e = elems[(start + k) % elems.len()].clone();
+                            if let Some(slot) = bad_e.get_mut(lp) {
+                                *slot = bad.clone();
+                            }
+                            let mk = |items: Vec<Value>| -> Option<Message> {
+                                let mut t = big.clone();
+                                if let Some(Value::Seq(s)) = t.get_mut(&path) {
+                                    *s = items;
+                                }
+                                value_to_message(&t).ok()
+                            };
+                            let mut with_bad = good.clone();
+                            with_bad.push(bad_e);
+                            let m_bad = match mk(with_bad) {
+                                Some(m) => m,
+                                None => continue,
+                            };
+                            // residue probes ending in the bytes around the point of refusal
+                            if let Some(tk) = mk(good.clone()) {
+                                if let Ok(ft) = fresh(&tk) {
+                                    let lt = ft.len() - 6;
+                                    for (l, probe, fresh_frame) in probes.iter().filter(|(l, _, _)| *l + 2 >= lt && *l <= lt + 4) {
+                                        ev.evaluations += 1;
+                                        let r = catch(|| {
+                                            let mut b = MessageBuilder::new();
+                                            let _ = b.build_message(&m_bad).map(|f| f.len());
+                                            b.build_message(probe).map(|f| f.to_vec()).map_err(|e| format!("{:?}", e))
+                                        });
+                                        match r {
+                                            Ok(Ok(f)) if &f == fresh_frame => {
+                                                ev.nontrivial_hash(hash_u64s(&[tc.number as u64, k as u64, variant, *l as u64, 77, hash_str(&schema_key(lp))]));
+                                            }
+                                            other => {
+                                                if vs.is_empty() {
+                                                    vs.push(Violation {
+                                                        property: "C12".into(),
+                                                        signature: "c12:frame-depends-on-history".into(),
+                                                        message: format!("[{}: refused at element {} of {}, then a probe message with a {}-byte payload] reused builder differs from a fresh one ({})", tc.number, k, key, l, match other { Ok(Ok(_)) => "different bytes".to_string(), Ok(Err(e)) => e, Err(p) => p }),
+                                                        case: json!({"kind":"history","labels":["refused-at-element", format!("residue-probe-{}", l)],"history":[msggen::message_to_value(&m_bad).to_json(), msggen::message_to_value(probe).to_json()]}),
+                                                    });
+                                                }
+                                            }
+                                        }
+                                    }
+                                }
+                            }
+                            let targets: Vec<Message> = [k, k.saturating_sub(1), (k + 1).min(cap)].iter().filter_map(|n| mk((0..*n).map(|i| if i < good.len() { good[i].clone() } else { elems[i % elems.len()].clone() }).collect())).collect();
+                            for (ti, t) in targets.iter().enumerate() {
+                                ev.evaluations += 1;
+                                let steps = [StepRef::Build(&m_bad), StepRef::Build(t)];
+                                match oracle_steps(&steps) {
+                                    Ok(()) => {
+                                        ev.nontrivial_hash(hash_u64s(&[tc.number as u64, k as u64, variant, ti as u64, hash_str(&schema_key(lp))]));
+                                        if k % 8 == 0 {
+                                            ev.class("retry-without-offending-element");
+                                        }
+                                    }
+                                    Err((sig, msg)) => {
+                                        if ctx.is_known(&sig) {
+                                            ev.excluded_known += 1;
+                                        } else if vs.is_empty() {
+                                            vs.push(Violation {
+                                                property: "C12".into(),
+                                                signature: sig,
+                                                message: format!("[{}: refused at element {} of {}, then the same message with {} elements] {}", tc.number, k, key, if ti == 0 { k } else if ti == 1 { k.saturating_sub(1) } else { k + 1 }, msg),
+                                                case: json!({"kind":"history","labels":["refused-at-element","retry"],"history":[msggen::message_to_value(&m_bad).to_json(), msggen::message_to_value(t).to_json()]}),
+                                            });
+                                        }
+                                    }
+                                }
+                            }
+                        }
+                    }
+                }
+            }
+            (ev, vs)
+        })
+        .collect();
+    let mut ev = Evidence::new();
+    let mut vs = Vec::new();
+    for (e, v) in parts {
+        ev.merge(e);
+        vs.extend(v);
+    }
+    (ev, vs)
+}
+
 /// history entry -> step: one in eight entries is a call of the crate's own generator on the same builder
 fn step_of<'a>(pool: &'a [PoolEntry], np: usize, i: u16) -> StepRef<'a> {
     if i % 8 == 7 {
@@ -275,7 +545,7 @@ fn step_of<'a>(pool: &'a [PoolEntry], np: usize, i: u16) -> StepRef<'a> {
 pub fn run(ctx: &Ctx, replay: Option<&J>) -> CheckResult {
     let rule = "proptest histories: 0..12 calls (build_message on pool messages, one in eight a build_generated_message call of the test_gen feature on the same builder) + a target, drawn from a pool holding every supported type (Default, decoded golden zero/ones/random vectors, generated and \
         synthesised messages), each list filled to capacity (maximum-length frames incl. 64-cell MSM), messages refused at the first step (Empty/Corrupt/MsgNotSupported, \
-        MSM with satellite 0), and messages refused late (last element of a full list out of range, MSM duplicate cell, 1029 with 128 characters). oracle: at every \
+        MSM with satellite 0), and messages refused late (last element of a full list out of range, MSM duplicate cell, 1029 with 128 characters). plus systematic two-step histories 'list message refused at element k (every k, every failable field) then the same message cut to k, k-1, k+1 elements', and residue probes: every refused pool message and the 40 longest accepted ones, each followed by a 1059 probe message for every reachable payload length 9..=1023 whose last byte carries one data bit and seven padding bits. oracle: at every \
         step the reused builder returns Ok exactly when a fresh MessageBuilder does and then identical bytes. non-trivial = a longer successful frame or a refused \
         build precedes the target; distinct = hash of the index history"
         .to_string();
@@ -367,6 +637,27 @@ pub fn run(ctx: &Ctx, replay: Option<&J>) -> CheckResult {
             json!({"kind":"history","labels":labels,"history":trees})
         },
     );
+    // systematic "retry without the offending element" histories: a list message whose k-th element makes the encoder
+    // refuse it (every k, every failable leaf), then the same message cut to its first k elements (and to k-1, k+1)
+    {
+        let (rev, mut rvs) = retry_histories(ctx);
+        ev.merge(rev);
+        let (pev, pvs) = residue_histories(ctx);
+        ev.merge(pev);
+        rvs.extend(pvs);
+        let mut vs2 = vs;
+        for v in rvs {
+            if !vs2.iter().any(|x: &Violation| x.signature == v.signature) {
+                vs2.push(v);
+            }
+        }
+        ev.extra.insert("pool_size".into(), json!(np));
+        ev.extra.insert("pool_refused_by_fresh_builder".into(), json!(pool.iter().filter(|e| e.fresh_len.is_none()).count()));
+        ev.extra.insert("pool_fails_late".into(), json!(pool.iter().filter(|e| e.label.contains("fails-late") || e.label.contains("duplicate-cell") || e.label.contains("128-chars")).count()));
+        ev.extra.insert("pool_max_frame_len".into(), json!(pool.iter().filter_map(|e| e.fresh_len).max()));
+        return CheckResult { evidence: ev, rule, assumptions, violations: vs2 };
+    }
+    #[allow(unreachable_code)]
     ev.extra.insert("pool_size".into(), json!(np));
     ev.extra.insert("pool_refused_by_fresh_builder".into(), json!(pool.iter().filter(|e| e.fresh_len.is_none()).count()));
     ev.extra.insert("pool_fails_late".into(), json!(pool.iter().filter(|e| e.label.contains("fails-late") || e.label.contains("duplicate-cell") || e.label.contains("128-chars")).count()));
